@@ -84,11 +84,15 @@ func newFsess(ch core.Chooser, st *core.Stats, base *faultfs.State, cfg dbx.Conf
 }
 
 // drawUniverse draws a small engineered universe for the fault checks.
-func drawUniverse(ch core.Chooser) (uint32, []string) {
+func drawUniverse(ch core.Chooser) (uint32, []string) { return drawUniverseP(ch, 15) }
+
+// drawUniverseP: bigPct is the share of universes with 40 keys in one bucket chain (overflow
+// buckets in the index of the fault session).
+func drawUniverseP(ch core.Chooser, bigPct int) (uint32, []string) {
 	seed := uint32(ch.Int("hashseed", 0, 1<<30))
 	pinSeed(seed)
 	sp := keys.Spec{Identical: 1, LowBits16: 6, LowBits2: 4, Plain: 8, Variant: uint32(ch.Int("univariant", 0, 3))}
-	if core.Pct(ch, "bigchain", 15) {
+	if core.Pct(ch, "bigchain", bigPct) {
 		sp.LowBits16 = 40
 	}
 	u := keys.Build(seed, sp)
